@@ -13,6 +13,7 @@ RULE = ("NetSpecs drawn by Hypothesis from the full feature lattice (all node ki
         "interruption, renege, batch arrival event} occurred; distinct = distinct SHA-1 of the canonical spec JSON.")
 ASSUMPTIONS = ["ground truth = membership of customer objects in Node.individuals lists and ExitNode.all_individuals",
                "sizes bounded: <=4 nodes, <=3 classes, <=3 servers, event budget per case"]
+TECHNIQUE = 'property-based testing: Hypothesis-generated networks (full feature lattice, region and reused-network profiles) with a conservation monitor on the object graph after every event; coverage-guided fuzzing (atheris) over the same generator'
 WALL = {"quick": 150, "thorough": 540}
 
 
